@@ -60,18 +60,31 @@ func (s *vhsSess) gatedRecord(kind string, nprobe int, replied bool) map[string]
 }
 
 // vhgCloseVsRename: fid 1 on /n1 (file or directory) is clunked; its Close parks; the entry is renamed meanwhile.
-func vhgCloseVsRename(wga, dir, sameDir bool) map[string]interface{} {
+// With below, the fid is on /n1/n4 and /n1 (its parent directory) is renamed: notifyNameChange meets the fidRef being closed.
+func vhgCloseVsRename(wga, dir, sameDir, below bool) map[string]interface{} {
 	s := vhsNewSess(wga, nil)
 	s.exec(vhsOp{K: "attach", A: []int{0, 0}})
 	s.exec(vhsOp{K: "attach", A: []int{1, 0}})
 	s.exec(vhsOp{K: "mk", A: []int{0, 0, 0, 2}}) // /n2: another directory
 	s.exec(vhsOp{K: "walk", A: []int{1, 0, 2}, Names: []int{2}})
-	if dir {
+	if below {
 		s.exec(vhsOp{K: "mk", A: []int{0, 0, 0, 1}})
+		s.exec(vhsOp{K: "walk", A: []int{0, 0, 3}, Names: []int{1}})
+		if dir {
+			s.exec(vhsOp{K: "mk", A: []int{0, 0, 3, 4}})
+		} else {
+			s.exec(vhsOp{K: "mk", A: []int{1, 0, 3, 4}})
+		}
+		s.exec(vhsOp{K: "clunk", A: []int{0, 3}})
+		s.exec(vhsOp{K: "walk", A: []int{0, 0, 1}, Names: []int{1, 4}})
 	} else {
-		s.exec(vhsOp{K: "mk", A: []int{1, 0, 0, 1}})
+		if dir {
+			s.exec(vhsOp{K: "mk", A: []int{0, 0, 0, 1}})
+		} else {
+			s.exec(vhsOp{K: "mk", A: []int{1, 0, 0, 1}})
+		}
+		s.exec(vhsOp{K: "walk", A: []int{0, 0, 1}, Names: []int{1}})
 	}
-	s.exec(vhsOp{K: "walk", A: []int{0, 0, 1}, Names: []int{1}})
 	// handle of fid 1's File: the last one created
 	s.fs.mu.Lock()
 	h := s.fs.nextH - 1
